@@ -226,24 +226,32 @@ int main(int argc, char** argv) {
             }
         });
 
-        // ---- deadlock monitor: if neither thread makes progress for 40 s the process cannot finish by itself
+        // ---- deadlock monitor: the DSP thread must keep advancing cycles (Run(n) cannot block by itself) and the host
+        // thread must keep either completing API calls or polling; 60 s without either is a blocked thread
         std::atomic<u64> host_progress{0};
         std::atomic<bool> monitor_stop{false};
         std::thread monitor([&] {
             u64 lc = 0, lh = 0;
-            auto last = std::chrono::steady_clock::now();
+            auto last_c = std::chrono::steady_clock::now(), last_h = last_c;
             while (!monitor_stop.load(std::memory_order_acquire)) {
                 std::this_thread::sleep_for(std::chrono::milliseconds(200));
                 u64 cc = cycles.load(), hh = host_progress.load();
                 auto now = std::chrono::steady_clock::now();
-                if (cc != lc || hh != lh) {
+                if (cc != lc) {
                     lc = cc;
+                    last_c = now;
+                }
+                if (hh != lh) {
                     lh = hh;
-                    last = now;
-                } else if (now - last > std::chrono::seconds(40) && !stop.load()) {
-                    ctx.violation("deadlock:no-thread-progress",
-                                  "neither the host thread nor the DSP thread made progress for 40 s (host blocked in an API call, DSP blocked in Run)", c,
-                                  JObj().unum("dsp_cycles", cc).unum("host_api_calls", hh).done());
+                    last_h = now;
+                }
+                bool dsp_stuck = now - last_c > std::chrono::seconds(60) && !stop.load() && dsp_outcome.load() == OK && guest_ready.load();
+                bool host_stuck = now - last_h > std::chrono::seconds(60) && !stop.load();
+                if (dsp_stuck || host_stuck) {
+                    ctx.violation(dsp_stuck ? "deadlock:dsp-thread-blocked" : "deadlock:host-thread-blocked",
+                                  dsp_stuck ? "the DSP thread did not complete a Run slice for 60 s (blocked inside Run, e.g. in a host callback re-entering the API)"
+                                            : "the host thread did not return from an API call for 60 s",
+                                  c, JObj().unum("dsp_cycles", cc).unum("host_progress", hh).done());
                     ctx.count("cases");
                     ctx.finish();
                     std::_Exit(0);
